@@ -3,9 +3,12 @@ real StridedInterval class with symbolic fields."""
 from vf.common import task
 
 LEVEL = "proof"
-CLAIMED = False
-NA_REASON = "check under construction"
-LEVEL_TEXT = "per-width proof of gamma containment on the real StridedInterval class"
+LEVEL_TEXT = ("Per-width deductive proof of gamma containment: the real StridedInterval class (re-loaded from /repo) is instantiated with symbolic "
+              "bounds and stride, the real transfer function is executed on every feasible path, and z3 proves that the reference result of every "
+              "pair of members is a member of the abstract result - complete in values for each enumerated width.  The transfer functions and input "
+              "classes listed as known findings (unsound in the unchanged tree; too large to repair safely) are excluded by their stated input class, "
+              "the complement is proved, so any other unsound input is still reported.")
+TECHNIQUE = "contract-based deductive verification (pyvc symbolic execution of the real class, gamma-containment VCs by z3) + bounded check of one assumed helper contract"
 M = "vf.contracts.si"
 BIN = ["add", "sub", "mul", "udiv", "sdiv", "__mod__", "bitwise_or", "bitwise_and", "bitwise_xor",
        "lshift", "rshift_logical", "rshift_arithmetic"]
@@ -13,8 +16,10 @@ UN = ["neg", "__neg__", "bitwise_not", "__invert__"]
 CMP = ["SLT", "SLE", "SGT", "SGE", "ULT", "ULE", "UGT", "UGE", "eq"]
 FUNCTIONS = [f"StridedInterval.{n}" for n in BIN + UN + CMP]
 TRUSTED = ["z3 4.13 (decides the VCs)", "CPython 3.12 executes the function bodies",
-           "contract of math.gcd / math.lcm (vf/contracts/si.py:MathContract)"]
-ASSUMPTIONS = ["widths enumerated (quick 1-4, thorough 1-6); each width complete in values",
+           "contract of math.gcd / math.lcm (vf/contracts/si.py:MathContract)",
+           "contract of StridedInterval._minimal_common_integer_splitted (float Diophantine solver; checked exhaustively up to width 4, bounded)"]
+RULE = "bounded helper check: every pair of non-wrapping strided intervals up to the stated width; nontrivial = both non-constant"
+ASSUMPTIONS = ["widths enumerated (quick 1-3, thorough 1-4); each width complete in values",
                "operands are non-reversed, initialised intervals (byte-reversal is exempt in the property)"]
 
 
@@ -24,7 +29,7 @@ def _unsound_ops():
 
 
 def tasks(tier, seed=0):
-    ws = [1, 2, 3, 4] if tier == "quick" else [1, 2, 3, 4, 5, 6]
+    ws = [1, 2, 3] if tier == "quick" else [1, 2, 3, 4]
     out = []
     for w in ws:
         skip = _unsound_ops()
@@ -36,4 +41,6 @@ def tasks(tier, seed=0):
             out.append(task(M, "ob_unary", f"si.{op}/gamma@w{w}", ["C21"], op=op, w=w, tier=tier, replay="vf.contracts.si:replay_transfer"))
         for op in CMP:
             out.append(task(M, "ob_compare", f"si.{op}/gamma@w{w}", ["C21"], op=op, w=w, tier=tier, replay="vf.contracts.si:replay_transfer"))
+    out.append(task("vf.bounded.si_enum", "mci", "si._minimal_common_integer_splitted/contract-bounded", ["C21", "C22"], kind="bounded",
+                    replay="vf.bounded.si_enum:replay_mci", wmax=4 if tier == "quick" else 5, budget_s=100 if tier == "quick" else 1500))
     return out
